@@ -547,6 +547,24 @@ func init() {
 		}
 		return []Val{r}
 	})
+	for _, n := range []string{"Sum64String"} {
+		reg(xx+n, "the same uninterpreted function of the bytes as Digest.Sum64", func(ex *Exec, a []Val, st *State, sig *types.Signature) []Val {
+			r := UF("xxhash.sum64", SInt, tm(a[0]))
+			if !r.hasBound {
+				ex.fact(nil, Ge(r, IntT(0)))
+			}
+			return []Val{r}
+		})
+	}
+	reg(xx+"Sum64", "the same uninterpreted function of the bytes as Digest.Sum64", func(ex *Exec, a []Val, st *State, sig *types.Signature) []Val {
+		b := a[0].(*Agg)
+		// the bytes as a string (a nil or empty slice is the empty string)
+		hn, hs := heapName(SInt)
+		s := Ite(Eq(tm(b.F[2]), IntT(0)), StrLit(""), UF("bytestr", SStr, tm(b.F[0]), tm(b.F[1]), tm(b.F[2]), st.heap.array(hn, hs)))
+		r := UF("xxhash.sum64", SInt, s)
+		ex.fact(nil, Ge(r, IntT(0)))
+		return []Val{r}
+	})
 	// ---- spf13/pflag: registering a variable stores its default through the pointer; the flag
 	// set remembers the pointer (parsing the command line later writes through it: not modelled)
 	for _, n := range []string{"BoolVarP", "BoolVar", "IntVar", "IntVarP", "StringVar", "StringVarP"} {
